@@ -35,6 +35,10 @@ def h64(*parts):
     return int.from_bytes(h.digest(), "little")
 
 
+DISCARDED_BY_RECEIVER = {"ip4_version", "ip4_ihl", "ip4_totlen", "ip4_hdrsum", "ip6_version", "ip6_plen", "icmp_sum", "icmp6_sum", "icmp_short", "icmp6_short",
+                         "udp_len", "udp_sum", "udp6_zero_sum", "tcp_doff", "tcp_sum", "ip6_na_hlim"}
+
+
 class Ctx:
     """Everything one shard needs.  `send()` is the observation boundary of every monitor."""
 
@@ -247,6 +251,11 @@ class Ctx:
                 self._universal_hit("C03", e.split(" ")[0], e, f, hist_upto, r)
             for e in monitors.wellformed(r.reply):
                 self._universal_hit("C04", e.split(" ")[0], e, f, hist_upto, r)
+                if self.crash_is_violation and self.prop != "C04" and e.split(" ")[0] in DISCARDED_BY_RECEIVER:
+                    # for the must-answer properties: a frame whose checksum or length fields are wrong is discarded by
+                    # the receiving stack, so the request was not answered
+                    self.violation("unusable_answer:" + e.split(" ")[0], "the answer is a frame every receiver discards (%s): the request is in effect "
+                                   "not answered" % e, observed=r.reply.hex(), hist_upto=hist_upto, frame=f)
         if self.cfg.logger != "n":
             for e in monitors.logcheck(f, r, self.cfg, prior):
                 self._universal_hit("C20", e.split(" ")[0], e, f, hist_upto, r)
